@@ -91,7 +91,8 @@ Proof. exact (fun f t => conj (exponent_coeff_value f t) (conj (exponent_coeff_n
 Print Assumptions C20_exponent_coeff.
 
 (* ---- what the harness observes is the table: for accepted inputs the symbolic run returns psi's
-   shape and every entry of the result comes from the one call of the table's kernel, made with
+   shape and every entry of the result comes from the one call of the table's kernel (a single run
+   of the run-length encoding, C20_rle_repeat), made with
    rhs = sign i H, t_span = (0, t), t_eval = [t] (solve_ivp) or exponent = sign i t H (others);
    when solve_ivp returns no column, time_evolve raises ---- *)
 Theorem C20_observe_table : forall (m : mode) (f : bool) (n : nat) (s : list nat) (t : Q) (ncols : nat),
@@ -101,12 +102,16 @@ Theorem C20_observe_table : forall (m : mode) (f : bool) (n : nat) (s : list nat
   | Some k =>
       match k, ncols with
       | SolveIvp _, O => None
-      | _, _ => Some (s, repeat (call_print (kernel_call k f t)) n)
+      | _, _ => Some (s, rle (repeat (call_print (kernel_call k f t)) n))
       end
   | None => None
   end.
 Proof. exact observe_table. Qed.
 Print Assumptions C20_observe_table.
+
+Theorem C20_rle_repeat : forall (c : call_out) (n : nat), rle (repeat c (S n)) = [(c, S n)].
+Proof. exact rle_repeat. Qed.
+Print Assumptions C20_rle_repeat.
 
 (* ---- shape: whatever the kernels return, a result has psi's shape ------------------------------- *)
 Theorem C20_shape_preserved :
@@ -201,7 +206,7 @@ Print Assumptions C20_contracts_satisfiable.
 (* a concrete observation: EIGSH, backward, dimension 5, psi of shape (5,1), t = 3/10 *)
 Example C20_example_observe :
   observe EIGSH false 5 [5; 1] (3 # 10)%Q 0 =
-  Some ([5; 1], repeat (OEigsh 3 [0; 1; 3; 10]%Z) 5).
+  Some ([5; 1], [(OEigsh 3 [0; 1; 3; 10]%Z, 5)]).
 Proof. vm_compute. reflexivity. Qed.
 Print Assumptions C20_example_observe.
 
